@@ -27,7 +27,14 @@ Loops over symbolic sequences carry *per-iteration ghost-event invariants*: the 
 iteration i states exactly which events (append / write / yield / map) the iteration produced and with which values;
 `member-loops-run-to-completion` rules out early exits.  The end-to-end statement is the composition of these layers
 (PY-LIST-ORDER for lists built by append); `decode` (lzma), zipfile / tarfile member reads, the file system and the
-member extractors are uninterpreted (Trust).  Recorded known findings: F25, F26, F27 (known_findings.json) with
+member extractors are uninterpreted (Trust).  Robustness (round 3): loop specifications are selected by ROLE (what the loop iterates over, never its position or
+the names of locals) and follow a loop into helpers the code is refactored into (helpers are executed in place);
+a comprehension is executed as the loop it abbreviates; `yield from gen` carries the obligation of the `for`/`yield`
+loop it replaces.  A refutation at the SMT level is never reported by itself: every refuted obligation, every
+obligation whose clause does not recognise a shape, and every locked obligation the changed code no longer
+generates is `unknown` and handed to the native replayer (replay/C10.py); VIOLATION = a failing input reproduced on
+the real code.
+Recorded known findings: F25, F26, F27 (known_findings.json) with
 proposed fixes for F25 (proposed_fixes/C10_F25.diff) and F27 (C10_F27.diff); F10 is fixed in /repo.
 """
 import ast
@@ -342,25 +349,27 @@ def byte_contracts():
 
     def bv_names(ex):
         """roles of the loop's locals, read from the AST: the shifted mask, the current byte, the result list"""
-        fnode = ex.cur_fn_stack[-1]
-        loop = sorted([n for n in ast.walk(fnode) if isinstance(n, (ast.For, ast.While))], key=lambda n: (n.lineno, n.col_offset))[0]
+        loop = ex._loop_nodes[-1]
         masks = {n.target.id for n in ast.walk(loop) if isinstance(n, ast.AugAssign) and isinstance(n.op, ast.RShift) and isinstance(n.target, ast.Name)}
+        masks |= {n.targets[0].id for n in ast.walk(loop) if isinstance(n, ast.Assign) and len(n.targets) == 1 and isinstance(n.targets[0], ast.Name)
+                  and isinstance(n.value, ast.BinOp) and isinstance(n.value.op, ast.RShift) and isinstance(n.value.left, ast.Name)
+                  and n.value.left.id == n.targets[0].id}
         bytes_ = {n.targets[0].id for n in ast.walk(loop) if isinstance(n, ast.Assign) and len(n.targets) == 1 and isinstance(n.targets[0], ast.Name)
                   and isinstance(n.value, ast.Call) and isinstance(n.value.func, ast.Attribute) and n.value.func.attr == "_read_uint8"}
         if len(masks) != 1 or len(bytes_) != 1:
             raise ops.Unsupported(f"_read_boolean_vector: loop roles not recognised (mask {sorted(masks)}, byte {sorted(bytes_)})")
-        return masks.pop(), bytes_.pop(), worklist_name(fnode, 0)
+        return masks.pop(), bytes_.pop(), worklist_of(loop)
 
     def bv_havoc(ex, st):
         m, b, _r = bv_names(ex)
         st.bind(m, VInt(z3.BitVec(fresh_name(m), 8)))      # both range over bytes (invariant below)
         st.bind(b, VInt(z3.BitVec(fresh_name(b), 8)))
-        common.havoc_pos(ex, st, st.obj(st.lookup("self").ref).data["_stream"])
+        common.havoc_pos(ex, st, st.obj(top(ex, "self").ref).data["_stream"])
 
     def bv_inv(lc):
         m, b, res = bv_names(lc.ex)
         i = lc.i
-        stream = lc.entry.obj(lc.entry.lookup("self").ref).data["_stream"]
+        stream = lc.entry.obj(top(lc, "self").ref).data["_stream"]
         s = stream.t
         p0 = common.bytesio_pos(lc.entry, stream)
         pos = common.bytesio_pos(lc.st, stream)
@@ -390,8 +399,7 @@ def byte_contracts():
                  ("bit-loop-runs-to-completion-unless-all-defined", internal(lambda c: z3.Or(
                      bv_all(c), z3.BoolVal(bool(c.st.ghost.get(("done", "bit-i-is-bit-7-minus-i-mod-8-of-byte-i-div-8")))))))],
         raises=[Raises(BAD, when=bv_short, label="short stream")],
-        loops={0: LoopSpec(inv=done("bit-i-is-bit-7-minus-i-mod-8-of-byte-i-div-8", bv_inv), label="bit-i-is-bit-7-minus-i-mod-8-of-byte-i-div-8",
-                           havoc=(bv_havoc,))},
+        loops=role(is_seq("int"), "bit-i-is-bit-7-minus-i-mod-8-of-byte-i-div-8", bv_inv, havoc=(bv_havoc,)),
         note="7z BitVector (optionally preceded by the allAreDefined byte): MSB-first bits; any count"))
     out.append(FnContract(
         target=f"{RD}._seek_back_one", params=[("self", p_reader())],
@@ -435,8 +443,13 @@ SJ = z3.Function("safe_join", S, S, S)
 DIRNAME = z3.Function("os_path_dirname", S, S)
 
 _k, _i, _x, _f = z3.Int("k!def"), z3.Int("i!def"), z3.Const("x!def", Blob), z3.Const("f!def", Folder)
-PS = z3.RecFunction("pack_size_prefix_sum", I, I)             # sum of pack_sizes[:k]
-z3.RecAddDefinition(PS, [_k], z3.If(_k <= 0, 0, PS(_k - 1) + PSZ(_k - 1)))
+PS = z3.Function("pack_size_prefix_sum", I, I)                # sum of pack_sizes[:k] (uninterpreted + instantiated definition, see NUMPOS)
+
+
+def ps_def(i):
+    """defining equations of the prefix sum at 0 and at i (i >= 0), instantiated where needed (see NUMPOS)"""
+    return z3.And(PS(z3.IntVal(0)) == 0, z3.Implies(i >= 0, PS(i + 1) == PS(i) + PSZ(i)))
+
 # decoder chain, last coder first: CHAIN(f, x, i) = result after i decoding steps
 CHAIN = z3.RecFunction("decode_chain", Folder, Blob, I, Blob)
 z3.RecAddDefinition(CHAIN, [_f, _x, _i], z3.If(_i <= 0, _x, DEC(CID(_f, NCOD(_f) - _i), CPROP(_f, NCOD(_f) - _i),
@@ -466,10 +479,7 @@ _PS_CACHE = {}
 def prefix_sum_fn(F):
     key = F.name()
     if key not in _PS_CACHE:
-        P = z3.RecFunction(f"{key}_prefix_sum", I, I)
-        j = z3.Int("j!ps")
-        z3.RecAddDefinition(P, [j], z3.If(j <= 0, 0, P(j - 1) + F(j - 1)))
-        _PS_CACHE[key] = P
+        _PS_CACHE[key] = z3.Function(f"{key}_prefix_sum", I, I)       # prefix sums of F (uninterpreted; only differences are used)
     return _PS_CACHE[key]
 
 
@@ -512,18 +522,234 @@ class CompSpec(LoopSpec):
         self.result = result
 
 
+class RoleSpec(LoopSpec):
+    """a loop specification selected by WHAT the loop iterates over (match(ex, st, iterable, node)), not by its position in the
+    function: it follows the loop into a helper the code was refactored into (helpers are executed in place)"""
+
+    def __init__(self, match, inv=None, havoc=(), label=""):
+        super().__init__(inv=inv, havoc=havoc, label=label)
+        self.match = match
+
+
+def merged(*ds):
+    out = {}
+    for d in ds:
+        out.update(d)
+    return out
+
+
+def role(match, label, inv, havoc=()):
+    return {("role", label): RoleSpec(match, inv=done(label, inv), havoc=havoc, label=label)}
+
+
+def is_seq(*kinds, tag=None):
+    def m(ex, st, it, node):
+        if not isinstance(it, VSeq):
+            return False
+        if tag is not None:
+            return isinstance(it.tag, tuple) and bool(it.tag) and it.tag[0] == tag
+        return it.ekind in kinds and not (isinstance(it.tag, tuple) and it.tag and it.tag[0] in ("worklist", "worklist7", "bitvector", "zidx"))
+    return m
+
+
+def body_calls(*names):
+    """the loop body (including nested statements) calls a function / method / constructor with one of these names"""
+    def m(ex, st, it, node):
+        for n in ast.walk(node):
+            if isinstance(n, ast.Call):
+                f = n.func
+                nm = f.attr if isinstance(f, ast.Attribute) else getattr(f, "id", None)
+                if nm in names:
+                    return True
+        return False
+    return m
+
+
+def both(*ms):
+    return lambda ex, st, it, node: all(m(ex, st, it, node) for m in ms)
+
+
+def top(x, name):
+    """value of a parameter of the function under contract (also visible from invariants of loops in inlined helpers)"""
+    ex = getattr(x, "ex", x)
+    return ex.top_args[name]
+
+
+def cur_loop(lc):
+    return lc.ex._loop_nodes[-1]
+
+
 class C10Executor(Executor):
     """Pack-local models of the abstract 7z header view (all ASSUMED views are listed in ASSUMED_MODELS)."""
 
+    _role_stack = ()
+    _loop_nodes = ()
+
+    def symbolic_for(self, s, st, it):
+        spec = None
+        if self.contract is not None:
+            for key, sp in self.contract.loops.items():
+                if isinstance(key, tuple) and key[0] == "role" and sp.match(self, st, it, s):
+                    spec = sp
+                    break
+        self._role_stack = tuple(self._role_stack) + (spec,)
+        self._loop_nodes = tuple(self._loop_nodes) + (s,)
+        try:
+            return super().symbolic_for(s, st, it)
+        finally:
+            self._role_stack = self._role_stack[:-1]
+            self._loop_nodes = self._loop_nodes[:-1]
+
+    MUTATORS = {"append", "extend", "insert", "pop", "remove", "clear", "sort", "reverse", "update", "setdefault", "add", "discard", "popitem"}
+
+    def _contracted_pure_method(self, func, st):
+        """also: an un-contracted method of the receiver's class (executed in place) whose body provably leaves `self` alone --
+        no store to self.<attr> / self.<attr>[..], no mutating call on self.<attr>, only self-pure methods of the class called"""
+        if super()._contracted_pure_method(func, st):
+            return True
+        if not isinstance(func.value, ast.Name):
+            return False
+        v = st.lookup(func.value.id)
+        o = st.heap.get(v.ref) if isinstance(v, VRef) else None
+        if o is None or o.kind != "obj" or not o.cls:
+            return False
+        return self._self_pure(o.cls, func.attr, set())
+
+    def _self_pure(self, cls, name, seen):
+        if (cls, name) in seen:
+            return True
+        seen.add((cls, name))
+        c = self.reg.get(f"{self.module.rel}::{cls}.{name}")
+        if c is not None and not c.inline:
+            return "self" not in c.modifies
+        fnode = self.module.functions.get(f"{cls}.{name}")
+        if fnode is None or not fnode.args.args:
+            return False
+        me = fnode.args.args[0].arg
+
+        def on_self(e):
+            while isinstance(e, (ast.Attribute, ast.Subscript)):
+                e = e.value
+            return isinstance(e, ast.Name) and e.id == me
+        for n in ast.walk(fnode):
+            if isinstance(n, (ast.Attribute, ast.Subscript)) and isinstance(n.ctx, (ast.Store, ast.Del)) and on_self(n):
+                return False
+            if isinstance(n, ast.Call) and isinstance(n.func, ast.Attribute) and on_self(n.func):
+                recv = n.func.value
+                if isinstance(recv, ast.Name):                       # self.m(...)
+                    if not self._self_pure(cls, n.func.attr, seen):
+                        return False
+                elif n.func.attr in self.MUTATORS:                   # self.x.append(...)
+                    return False
+            if isinstance(n, ast.Call) and any(isinstance(a, ast.Name) and a.id == me for a in n.args):
+                return False                                          # self handed to another function
+        return True
+
+    def e_GeneratorExp(self, n, st):
+        """(E for t in IT if C) over a symbolic IT: a lazy view (index -> (C, E)); consumers: any(), all()"""
+        if len(n.generators) == 1 and not n.generators[0].is_async:
+            g = n.generators[0]
+            probe = self.ev(g.iter, st.fork())
+            if len(probe) == 1 and isinstance(probe[0][1], VSeq) and self.concrete_items(probe[0][0], probe[0][1]) is None:
+                from pyvc.state import Frame
+                out = []
+                for (s2, it) in self.ev(g.iter, st):
+                    def at(j, s2=s2, it=it):
+                        s3 = s2.fork()
+                        s3.frames.append(Frame({}, len(s3.frames) - 1, s3.frame.fnode))
+                        mark = len(self.sinks[-1])
+                        sts = self.assign(g.target, it.elem(j), s3)
+                        conds = []
+                        if len(sts) != 1:
+                            self.unsupported(n, "generator expression: forking target")
+                        cur = sts[0]
+                        for c_ in g.ifs:
+                            r = self.ev(c_, cur)
+                            if len(r) != 1:
+                                self.unsupported(n, "generator expression: forking condition")
+                            cur = r[0][0]
+                            conds.append(self.truth(cur, r[0][1]).t)
+                        r = self.ev(n.elt, cur)
+                        if len(r) != 1 or len(self.sinks[-1]) != mark:
+                            del self.sinks[-1][mark:]
+                            self.unsupported(n, "generator expression: forking / raising element")
+                        return z3.And(conds + [z3.BoolVal(True)]), r[0][1]
+                    out.append((s2, VSeq(it.length, lambda j, at=at: at(j)[1], "genexp", tag=("genexp", at))))
+                return out
+        return super().e_GeneratorExp(n, st)
+
+    def _quantify(self, st, v, conj):
+        j = z3.Int(fresh_name("j!gen"))
+        cond, elt = v.tag[1](j)
+        t = self.truth(st, elt).t
+        rng = z3.And(j >= 0, j < v.length)
+        return VBool(z3.Exists([j], z3.And(rng, cond, t))) if not conj else VBool(z3.ForAll([j], z3.Implies(z3.And(rng, cond), t)))
+
+    def b_any(self, st, args, kwargs, node):
+        v = args[0]
+        if isinstance(v, VSeq) and isinstance(v.tag, tuple) and v.tag and v.tag[0] == "genexp":
+            return [(st, self._quantify(st, v, False))]
+        return super().b_any(st, args, kwargs, node)
+
+    def b_all(self, st, args, kwargs, node):
+        v = args[0]
+        if isinstance(v, VSeq) and isinstance(v.tag, tuple) and v.tag and v.tag[0] == "genexp":
+            return [(st, self._quantify(st, v, True))]
+        return super().b_all(st, args, kwargs, node)
+
+    def _comp_as_loop(self, n, st):
+        """[E for t in IT if C] over a SYMBOLIC IT for which the contract has a loop role is executed as the loop it abbreviates:
+        tmp = []; for t in IT: if C: tmp.append(E)   (so selection written as a comprehension meets the same invariant)"""
+        from pyvc.state import Frame
+        from pyvc.symex import Outcome
+        if self.contract is None or len(n.generators) != 1 or n.generators[0].is_async:
+            return super().e_ListComp(n, st)
+        g = n.generators[0]
+        probe = self.ev(g.iter, st.fork())
+        if len(probe) != 1 or not isinstance(probe[0][1], VSeq):
+            return super().e_ListComp(n, st)
+        tmp, itn = fresh_name("comp"), fresh_name("comp_iter")
+        app = ast.Expr(ast.Call(func=ast.Attribute(value=ast.Name(tmp, ast.Load()), attr="append", ctx=ast.Load()), args=[n.elt], keywords=[]))
+        body = [app]
+        if g.ifs:
+            test = g.ifs[0] if len(g.ifs) == 1 else ast.BoolOp(op=ast.And(), values=list(g.ifs))
+            body = [ast.If(test=test, body=[app], orelse=[])]
+        loop = ast.For(target=g.target, iter=ast.Name(itn, ast.Load()), body=body, orelse=[])
+        ast.copy_location(loop, n)
+        ast.fix_missing_locations(loop)
+        if not any(isinstance(k, tuple) and k[0] == "role" and sp.match(self, st, probe[0][1], loop) for k, sp in self.contract.loops.items()):
+            return super().e_ListComp(n, st)
+        out = []
+        for (s2, it) in self.ev(g.iter, st):
+            s2.frames.append(Frame({tmp: self.new_list(s2, []), itn: it}, len(s2.frames) - 1, s2.frame.fnode))
+            for o in self.exec_stmt(loop, s2):
+                if o.kind == "fall":
+                    v = o.st.lookup(tmp)
+                    o.st.frames.pop()
+                    out.append((o.st, v))
+                elif o.kind == "raise":
+                    o.st.frames.pop()
+                    self.raise_in(o.st, o.val)
+                else:
+                    self.unsupported(n, f"{o.kind} out of a comprehension")
+        return out
+
+    def loop_spec(self, node):
+        if self._role_stack and self._role_stack[-1] is not None and self._loop_nodes and self._loop_nodes[-1] is node:
+            return self._role_stack[-1]
+        return super().loop_spec(node)
+
     def e_ListComp(self, n, st):
         spec = None
-        if self.contract is not None and self.inline_depth == 0 and len(n.generators) == 1 and not n.generators[0].ifs:
-            fnode = self.cur_fn_stack[-1] if self.cur_fn_stack else None
-            comps = sorted([x for x in ast.walk(fnode) if isinstance(x, ast.ListComp)], key=lambda x: (x.lineno, x.col_offset)) if fnode else []
-            if n in comps:
-                spec = self.contract.loops.get(("comp", comps.index(n)))
+        if self.contract is not None and len(n.generators) == 1 and not n.generators[0].ifs:
+            spec = self.contract.loops.get(("comp", "*"))
+        if spec is not None:
+            # only comprehensions over a SYMBOLIC iterable are summarised under the invariant
+            probe = self.ev(n.generators[0].iter, st.fork())
+            if len(probe) != 1 or not isinstance(probe[0][1], VSeq):
+                spec = None
         if spec is None:
-            return super().e_ListComp(n, st)
+            return self._comp_as_loop(n, st)
         from pyvc.symex import LoopCtx
         from pyvc.state import Frame
         g = n.generators[0]
@@ -569,6 +795,23 @@ class C10Executor(Executor):
                 n = ops.int_term(b)
                 x = items[0]
                 return [(st, VSeq(z3.If(n < 0, z3.IntVal(0), n), lambda i, x=x: x, x.kind))]
+        if op == "Mod" and isinstance(a, VStr) and a.const() is not None:
+            # 'literal %s ... %d' % value / tuple: plain %s / %d fields with str / int arguments
+            import re as _re
+            tpl = a.const()
+            fields = _re.findall(r"%(.)", tpl)
+            vals = list(b.items) if isinstance(b, VTuple) else [b]
+            if all(f in "sd%" for f in fields) and len([f for f in fields if f != "%"]) == len(vals) and \
+                    all(isinstance(v, (VStr, VInt)) for v in vals):
+                acc, k = z3.StringVal(""), 0
+                for piece in _re.split(r"(%.)", tpl):
+                    if piece in ("%s", "%d"):
+                        acc, k = z3.Concat(acc, self.to_str(st, vals[k]).t), k + 1
+                    elif piece == "%%":
+                        acc = z3.Concat(acc, z3.StringVal("%"))
+                    else:
+                        acc = z3.Concat(acc, z3.StringVal(piece))
+                return [(st, VStr(z3.simplify(acc)))]
         return super().binop(st, op, a, b, node, inplace)
 
     # -- `k in self._folder_to_files`, `self._folder_to_files[k]`
@@ -671,7 +914,62 @@ class C10Executor(Executor):
             k = self.concretize(st, args[0])
             if k is not None and k <= 64:
                 return [(st, VTuple([VInt(i) for i in range(max(k, 0))]))]
+        if len(args) == 3 and all(isinstance(a, VInt) for a in args) and args[2].const() == -1 and \
+                (args[0].const() is None or args[1].const() is None):
+            # range(hi, lo, -1): hi, hi-1, ..., lo+1
+            hi, lo = ops.int_term(args[0]), ops.int_term(args[1])
+            return [(st, VSeq(z3.If(hi - lo < 0, z3.IntVal(0), hi - lo), lambda i, hi=hi: VInt(hi - i), "int"))]
         return super().b_range(st, args, kwargs, node)
+
+    def b_next(self, st, args, kwargs, node):
+        """next(iterable_of_known_items[, default]) -- generator expressions are evaluated eagerly (concrete item lists)"""
+        items = self.concrete_items(st, args[0]) if args else None
+        if items is None:
+            return self.havoc_call(st, "next", args, node)
+        if items:
+            return [(st, items[0])]
+        if len(args) > 1:
+            return [(st, args[1])]
+        self.raise_in(st, self.mk_exc("StopIteration"))
+        return []
+
+    def str_method(self, st, s, name, args, kwargs, node):
+        """'...{}...{name}...'.format(args): literal template with plain fields and str / int arguments"""
+        if name == "format":
+            tpl = s.const()
+            parts = self._format_parts(tpl) if tpl is not None else None
+            if parts is not None:
+                acc, auto, ok = z3.StringVal(""), 0, True
+                for lit, field in parts:
+                    acc = z3.Concat(acc, z3.StringVal(lit))
+                    if field is None:
+                        continue
+                    if field == "":
+                        v, auto = (args[auto] if auto < len(args) else None), auto + 1
+                    elif field.isdigit():
+                        v = args[int(field)] if int(field) < len(args) else None
+                    else:
+                        v = kwargs.get(field)
+                    if not isinstance(v, (VStr, VInt)):
+                        ok = False
+                        break
+                    acc = z3.Concat(acc, self.to_str(st, v).t)
+                if ok:
+                    return [(st, VStr(z3.simplify(acc)))]
+        return super().str_method(st, s, name, args, kwargs, node)
+
+    @staticmethod
+    def _format_parts(tpl):
+        import string
+        try:
+            out = []
+            for lit, field, spec, conv in string.Formatter().parse(tpl):
+                if field is not None and (spec or conv or not (field == "" or field.isdigit() or field.isidentifier())):
+                    return None
+                out.append((lit, field))
+            return out
+        except ValueError:
+            return None
 
     def b_reversed(self, st, args, kwargs, node):
         v = args[0]
@@ -692,18 +990,31 @@ class C10Executor(Executor):
         return [(st, f)]
 
 
+KNOWN_READER_LISTS = {"_files", "_folders", "_pack_positions", "_pack_sizes", "_file_sizes"}
+
+
 def zero_length_worklist(repo=None):
-    """name of the reader attribute that `extractall` iterates (besides the folders) to create the ZERO-LENGTH files
-    (entries with emptyStream + emptyFile have no stream and belong to no folder), or None when extractall has no such loop"""
-    fnode = loader.module(SEVEN, repo).functions.get("SevenZipReader.extractall")
-    if fnode is None:
+    """name of the reader attribute that holds the ZERO-LENGTH files to create at extraction (entries with emptyStream +
+    emptyFile have no stream and belong to no folder): the list attribute initialised in __init__ that is not one of the header
+    lists and that some method iterates (`for x in self.<attr>`); None when the reader has no such attribute"""
+    m = loader.module(SEVEN, repo)
+    init = m.functions.get("SevenZipReader.__init__")
+    if init is None:
         return None
-    loops = sorted([n for n in ast.walk(fnode) if isinstance(n, ast.For)], key=lambda n: (n.lineno, n.col_offset))
-    for lp in loops[1:]:
-        it = lp.iter
-        if isinstance(it, ast.Attribute) and isinstance(it.value, ast.Name) and it.value.id == "self":
-            return it.attr
-    return None
+    lists = set()
+    for n in ast.walk(init):
+        tgt = n.targets[0] if isinstance(n, ast.Assign) and len(n.targets) == 1 else (n.target if isinstance(n, ast.AnnAssign) else None)
+        val = getattr(n, "value", None)
+        if isinstance(tgt, ast.Attribute) and isinstance(tgt.value, ast.Name) and tgt.value.id == "self" and isinstance(val, ast.List) and not val.elts:
+            lists.add(tgt.attr)
+    cands = set()
+    for q, f in m.functions.items():
+        if q.startswith("SevenZipReader."):
+            for lp in ast.walk(f):
+                if isinstance(lp, ast.For) and isinstance(lp.iter, ast.Attribute) and isinstance(lp.iter.value, ast.Name) and lp.iter.value.id == "self":
+                    cands.add(lp.iter.attr)
+    cands = (cands & lists) - KNOWN_READER_LISTS
+    return sorted(cands)[0] if len(cands) == 1 else None
 
 
 ZIDX = z3.Function("zero_length_file_index", I, I)     # j-th zero-length file (index into the file list)
@@ -796,16 +1107,30 @@ def install_layout(reg):
     reg.attr_models[("FileInfo", "filename")] = lambda ex, st, o: VStr(FNAME(o.t))
 
 
+def assigned_in(loop):
+    """names (re)bound by the statements of a loop body"""
+    out = set()
+    for stmt in loop.body:
+        for n in ast.walk(stmt):
+            if isinstance(n, ast.Name) and isinstance(n.ctx, ast.Store):
+                out.add(n.id)
+    tgt = {n.id for n in ast.walk(loop.target) if isinstance(n, ast.Name)} if isinstance(loop, ast.For) else set()
+    return out - tgt
+
+
+def loop_carried_ints(lc):
+    """{name: current value} of the int locals that exist before the loop AND are reassigned in its body: the loop's state"""
+    names = assigned_in(cur_loop(lc))
+    env0 = lc.entry.frame.env
+    return {k: lc.st.lookup(k) for k in sorted(names) if isinstance(env0.get(k), VInt) and isinstance(lc.st.lookup(k), VInt)}
+
+
 def offset_local(lc):
-    """the running offset: the unique int local assigned in the loop body that is not the loop target."""
-    st = lc.st
-    cands = [(k, v) for k, v in st.frame.env.items() if isinstance(v, VInt) and k in ("offset",)]
-    if len(cands) != 1:
-        ints = [(k, v) for k, v in st.frame.env.items() if isinstance(v, VInt) and k not in ("folder_idx", "file_idx")]
-        if len(ints) != 1:
-            raise ops.Unsupported(f"member loop: expected one running offset, found {[k for k, _ in ints]}")
-        cands = ints
-    return cands[0][1]
+    """the running offset of the member loop: its only loop-carried int"""
+    ints = loop_carried_ints(lc)
+    if len(ints) != 1:
+        raise ops.Unsupported(f"member loop: expected one running offset, found {sorted(ints)}")
+    return next(iter(ints.values()))
 
 
 def blob_local(lc, st=None):
@@ -857,7 +1182,7 @@ def layout_contracts():
 
     def df_inv(lc):
         x0 = blob_local(lc, lc.entry).t
-        fo = lc.entry.lookup("folder").t
+        fo = top(lc, "folder").t
         return z3.And(blob_local(lc).t == CHAIN(fo, x0, lc.i), NCOD(fo) >= 0)
 
     out.append(FnContract(
@@ -868,7 +1193,7 @@ def layout_contracts():
         requires=lambda c: z3.And(ops.int_term(c.args["pack_pos"]) >= 0, df_sum(c) >= 0, NCOD(c.args["folder"].t) >= 0),
         returns=df_returns,
         raises=[Raises(BAD, label="no coders / decoder failure")],
-        loops={0: LoopSpec(inv=done("decoder-chain-last-coder-first", df_inv), label="decoder-chain-last-coder-first")},
+        loops=role(lambda ex, st, it, node: True, "decoder-chain-last-coder-first", df_inv),
         note="decodes archive[pack_pos : pack_pos + sum(pack_sizes)] through the folder's coder chain, last coder first "
              "(empty / all-zero size list: everything from pack_pos to the end of the file -- the header case)"))
 
@@ -891,9 +1216,9 @@ def layout_contracts():
                                 patterns=[FIDX(k, j)]))
 
     def ef_inv(lc):
-        k = ops.int_term(lc.entry.lookup("folder_idx"))
-        dec = lc.entry.lookup("decompressed").t
-        base = lc.entry.lookup("base_path").t
+        k = ops.int_term(top(lc, "folder_idx"))
+        dec = top(lc, "decompressed").t
+        base = top(lc, "base_path").t
         i = lc.i
         conj = [ops.int_term(offset_local(lc)) == OFF(k, i), OFF(k, i) >= 0]
         if lc.extra.get("phase") == "preserve":
@@ -918,7 +1243,7 @@ def layout_contracts():
         requires=ef_requires,
         raises=[Raises(BAD, label="unsafe name / size beyond the folder output / file-system failure")],
         ensures=[completes("member-j-is-slice-off_j-size_j-of-the-folder-output")],
-        loops={0: LoopSpec(inv=done("member-j-is-slice-off_j-size_j-of-the-folder-output", ef_inv), label="member-j-is-slice-off_j-size_j-of-the-folder-output")},
+        loops=role(is_seq("int"), "member-j-is-slice-off_j-size_j-of-the-folder-output", ef_inv),
         frame=lambda ex, st, ctx: st.ghost.__setitem__("extracted", events(st, "extracted") + ((ctx.args["folder_idx"], ctx.args["decompressed"]),)),
         note="offset of entry j = sum of the sizes of the earlier non-directory entries of the folder"))
 
@@ -931,14 +1256,14 @@ def layout_contracts():
              "_header_offset": p_const(32), "_folder_to_files": p_ext("FolderMap"), "_files": p_files(),
              "_archive_file": p_ext("ArchiveFile")}
         if ZL:
-            f[ZL] = Maker(lambda ex, st, name: [(NZ >= 0, VSeq(NZ, lambda j: VInt(ZIDX(j)), "int"))], desc="indices of the zero-length files")
+            f[ZL] = Maker(lambda ex, st, name: [(NZ >= 0, VSeq(NZ, lambda j: VInt(ZIDX(j)), "int", tag=("zidx",)))], desc="indices of the zero-length files")
         return p_obj("SevenZipReader", f)
 
     def zl_inv(lc):
         conj = []
         if lc.extra.get("phase") == "preserve":
             fi = FINFO(ZIDX(lc.i - 1))
-            base = lc.entry.lookup("path").t
+            base = top(lc, "path").t
             opens, writes = new_events(lc, "opens"), new_events(lc, "writes")
             ok = z3.BoolVal(False)
             if len(opens) == 1 and len(writes) == 0:
@@ -957,8 +1282,8 @@ def layout_contracts():
 
     def ea_archive(c_or_lc):
         st = c_or_lc.entry
-        sf = st.lookup("source_file")
-        return sf.t if isinstance(sf, VExt) else st.obj(st.lookup("self").ref).data["_archive_file"].t
+        sf = top(c_or_lc, "source_file")
+        return sf.t if isinstance(sf, VExt) else st.obj(top(c_or_lc, "self").ref).data["_archive_file"].t
 
     def ea_requires(c):
         j = z3.Int("j!req")
@@ -996,6 +1321,8 @@ def layout_contracts():
             conj.append(ok)
         elif lc.extra.get("phase") == "preserve":
             conj.append(z3.Not(HASF(i - 1)))
+        if lc.extra.get("phase") in ("init", "assume"):
+            lc.st.assume(ps_def(i))                      # definition of the prefix sum at 0 and at this folder index
         return z3.And(conj + [PS(i) >= 0])
 
     out.append(FnContract(
@@ -1005,8 +1332,8 @@ def layout_contracts():
         raises=[Raises("ValueError", when=lambda c: z3.Length(c.args["path"].t) == 0, label="empty path"),
                 Raises(BAD, label="directory creation / decoder / member extraction failed")],
         ensures=[completes("folder-k-decoded-from-its-own-pack-stream"), ("zero-length-files-are-created-empty", internal(ea_zero_length))],
-        loops=dict([(0, LoopSpec(inv=done("folder-k-decoded-from-its-own-pack-stream", ea_inv), label="folder-k-decoded-from-its-own-pack-stream"))] +
-                   ([(1, LoopSpec(inv=done(ZL_LABEL, zl_inv), label=ZL_LABEL))] if ZL else [])),
+        loops=merged(role(is_seq("tuple", "Folder", "int"), "folder-k-decoded-from-its-own-pack-stream", ea_inv),
+                   role(is_seq(tag="zidx"), ZL_LABEL, zl_inv)),
         note="for every folder k that has files: the bytes handed to _extract_files_from_folder are "
              "decode_chain(folder k, archive[pack_pos + sum(pack_sizes[:k]) : +pack_sizes[k]])"))
     return out
@@ -1119,6 +1446,18 @@ class MemberExecutor(C10Executor):
         st.ghost["yields"] = events(st, "yields") + (v,)
 
     def on_yield_from(self, st, gen, node):
+        if isinstance(gen, VExt) and gen.sort == "ResultGen":
+            self.exc_any(st.fork(), "next(extractor results)")      # the delegated-to generator may fail at any point
+            # `yield from extractor(...)` is the delegation form of `for r in extractor(...): yield r` (PY-GEN): the same obligation,
+            # stated on the delegated-to generator = the result generator of THE dispatch
+            lab = "yields-the-extractor-results-in-order"
+            if self.contract is not None and any(isinstance(k, tuple) and k[0] == "role" and k[1] == lab for k in self.contract.loops):
+                d = events(st, "dispatch")
+                ok = z3.BoolVal(False)
+                if len(d) == 1 and len(d[0][1]) == 1 and isinstance(d[0][2].get("path"), VStr) and isinstance(d[0][1][0], VExt):
+                    ok = gen.t == RUN(d[0][0].t, d[0][1][0].t, d[0][2]["path"].t)
+                self.add_vc("inv-init", lab, st.pc, z3.BoolVal(True), loc=self.loc(node))
+                self.add_vc("inv-preserve", lab, st.pc, ok, loc=self.loc(node))
         st.ghost["yields"] = events(st, "yields") + (gen,)
 
     def list_method(self, st, obj, name, args, kwargs, node):
@@ -1155,10 +1494,9 @@ def m_stream_seek(ex, st, obj, args, kwargs, node):
     return common.m_seek(ex, st, obj, args, kwargs, node)
 
 
-def worklist_name(fnode, loop_ordinal=0):
-    """the local list a selection loop appends to (the unique `X.append(...)` receiver in that loop)."""
-    loops = sorted([n for n in ast.walk(fnode) if isinstance(n, (ast.For, ast.While))], key=lambda n: (n.lineno, n.col_offset))
-    names = {n.func.value.id for n in ast.walk(loops[loop_ordinal]) if isinstance(n, ast.Call) and isinstance(n.func, ast.Attribute)
+def worklist_of(loop):
+    """the local list a loop appends to (the unique `X.append(...)` receiver that is a plain name)"""
+    names = {n.func.value.id for n in ast.walk(loop) if isinstance(n, ast.Call) and isinstance(n.func, ast.Attribute)
              and n.func.attr == "append" and isinstance(n.func.value, ast.Name)}
     if len(names) != 1:
         raise ops.Unsupported(f"selection loop: expected one appended-to list, found {sorted(names)}")
@@ -1170,7 +1508,20 @@ def with_passthrough(ex, st, cm, phase):
         return [(st, cm)]
 
 
+def m_seq_startswith(ex, st, obj, args, kwargs, node):
+    """bytes.startswith(prefix | tuple of prefixes) on a byte sequence of symbolic length"""
+    if not (isinstance(obj, VSeq) and obj.is_bytes and len(args) == 1):
+        return ex.havoc_call(st, "seq.startswith", args, node)
+    cands = list(args[0].items) if isinstance(args[0], VTuple) else [args[0]]
+    if not all(isinstance(c_, VBytes) for c_ in cands):
+        return ex.havoc_call(st, "seq.startswith", args, node)
+    alts = [z3.And([obj.length >= len(c_.items)] + [ex.as_byte(obj.elem(z3.IntVal(i))).t == ex.as_byte(b).t for i, b in enumerate(c_.items)])
+            for c_ in cands]
+    return [(st, VBool(z3.Or(alts + [z3.BoolVal(False)])))]
+
+
 def install_members(reg):
+    reg.method_models[("seq", "startswith")] = m_seq_startswith
     reg.method_models[("Stream7z", "seek")] = m_stream_seek
     reg.ext_models[("const", "os.SEEK_END")] = VInt(2)
     common.install_clock(reg)
@@ -1190,7 +1541,7 @@ def install_members(reg):
         return [(st, zf)]
     reg.ext_models[("new", "zipfile.ZipFile")] = new_zip
     reg.ext_models[("with", "ZipFile")] = with_passthrough
-    reg.method_models[("ZipFile", "infolist")] = lambda ex, st, o, a, k, n: [(st, VSeq(ZN(o.t), lambda i: VExt("ZipInfo", ZINFO(o.t, i)), "ZipInfo"))]
+    reg.method_models[("ZipFile", "infolist")] = lambda ex, st, o, a, k, n: [(st, VSeq(ZN(o.t), lambda i: VExt("ZipInfo", ZINFO(o.t, i)), "ZipInfo", tag=("zipinfos", o.t)))]
     reg.attr_models[("ZipInfo", "is_dir")] = lambda ex, st, o: VFunc("bound", o, "is_dir")
     reg.method_models[("ZipInfo", "is_dir")] = lambda ex, st, o, a, k, n: [(st, VBool(ZISDIR(o.t)))]
     reg.attr_models[("ZipInfo", "flag_bits")] = lambda ex, st, o: VInt(ZFLAGS(o.t))
@@ -1218,7 +1569,7 @@ def install_members(reg):
 
     def tar_getmembers(ex, st, o, a, k, n):
         ex.exc_any(st.fork(), "TarFile.getmembers()")
-        return [(st, VSeq(TN(o.t), lambda i: VExt("TarInfo", TMEM(o.t, i)), "TarInfo"))]
+        return [(st, VSeq(TN(o.t), lambda i: VExt("TarInfo", TMEM(o.t, i)), "TarInfo", tag=("tarmembers", o.t)))]
     reg.method_models[("TarFile", "getmembers")] = tar_getmembers
     reg.attr_models[("TarInfo", "isreg")] = lambda ex, st, o: VFunc("bound", o, "isreg")
     reg.method_models[("TarInfo", "isreg")] = lambda ex, st, o, a, k, n: [(st, VBool(TISREG(o.t)))]
@@ -1364,7 +1715,14 @@ def member_contracts():
         big = BLEN(data) > max_entry
         if len(d) == 0:
             return big
-        return z3.And(z3.Not(big), z3.BoolVal(bool(c.st.ghost.get("results_exhausted"))))
+        if c.st.ghost.get("results_exhausted"):
+            return z3.Not(big)
+        # `yield from extractor(...)`: the whole result generator of THE dispatch is delegated to
+        f, args, kw = d[0]
+        whole = [y for y in events(c.st, "yields") if isinstance(y, VExt) and y.sort == "ResultGen"]
+        if len(d) == 1 and len(whole) == 1 and len(events(c.st, "yields")) == 1 and len(args) == 1 and isinstance(kw.get("path"), VStr):
+            return z3.And(z3.Not(big), whole[0].t == RUN(f.t, args[0].t, kw["path"].t))
+        return z3.BoolVal(False)
 
     out.append(FnContract(
         target=f"{ARCH}::_process_archive_entry",
@@ -1372,25 +1730,24 @@ def member_contracts():
         generator=True, raises=[],
         ensures=[("one-dispatch-extractor-by-basename-member-bytes-archive!/member-path", internal(pe_dispatch_ok)),
                  ("member-dispatched-and-all-its-results-yielded-unless-it-fails", internal(pe_complete))],
-        loops={0: LoopSpec(inv=done("yields-the-extractor-results-in-order", pe_inv), label="yields-the-extractor-results-in-order")},
+        loops=role(lambda ex, st, it, node: isinstance(it, VExt) and it.sort == "ResultGen", "yields-the-extractor-results-in-order", pe_inv),
         result_maker=lambda ex, st, ctx: VExt("EntryGen", entry_term(ctx.args["filename"].t, ctx.args["file_data"].t,
                                                                      ctx.args["archive_path"], ctx.args["basename"].t)),
         note="a member failure is swallowed here (affects only itself); results = extractor(BytesIO(bytes), path='archive!/member')"))
 
     # ---- ZIP
     def zip_zf(lc):
-        vals = [v for v in lc.st.frame.env.values() if isinstance(v, VExt) and v.sort == "ZipFile"]
-        if len(vals) != 1:
-            raise ops.Unsupported("zip loop: expected one ZipFile local")
-        return vals[0].t
+        tag = getattr(lc.seq, "tag", None)
+        if isinstance(tag, tuple) and len(tag) == 2 and tag[0] in ("zipinfos", "worklist"):
+            return tag[1]
+        raise ops.Unsupported("zip loop: the iterated sequence does not come from a ZipFile")
 
 
     def zip_sel_inv(lc):
         zf = zip_zf(lc)
         i = lc.i
         conj = []
-        fnode = lc.ex.cur_fn_stack[-1]
-        wl = worklist_name(fnode, 0)
+        wl = worklist_of(cur_loop(lc))
         ref = lc.entry.lookup(wl).ref
         if lc.extra.get("phase") == "preserve":
             e = ZINFO(zf, i - 1)
@@ -1417,7 +1774,7 @@ def member_contracts():
         if lc.extra.get("phase") == "preserve":
             j = lc.i - 1
             e = ZINFO(zf, ZSEL(zf, j))
-            ap = lc.entry.lookup("archive_path")
+            ap = top(lc, "archive_path")
             ys = new_events(lc, "yields")
             ok = z3.BoolVal(False)
             if len(ys) == 0:
@@ -1437,25 +1794,25 @@ def member_contracts():
         raises=[Raises(ENC, label="an entry is encrypted"), Raises("Exception", sub=True, label="the container could not be opened",
                                                                   when=lambda c: z3.BoolVal(c.exc is not None and c.exc.attrs.get("site") == "zipfile.ZipFile()")),
                 Raises("ExtractionFailedError", label="BadZipFile from the constructor")],
-        loops={0: LoopSpec(inv=done("selects-the-visible-supported-members-in-infolist-order", zip_sel_inv), label="selects-the-visible-supported-members-in-infolist-order"),
-               1: LoopSpec(inv=done("each-selected-member-dispatched-with-its-own-bytes-name-basename", zip_disp_inv), label="each-selected-member-dispatched-with-its-own-bytes-name-basename")},
+        loops=merged(role(is_seq("ZipInfo"), "selects-the-visible-supported-members-in-infolist-order", zip_sel_inv),
+                   role(is_seq(tag="worklist"), "each-selected-member-dispatched-with-its-own-bytes-name-basename", zip_disp_inv)),
         frame=lambda ex, st, ctx: st.ghost.__setitem__("routes", events(st, "routes") + (("zip", ctx.args["file_like"], ctx.args["archive_path"], None),)),
         result_maker=lambda ex, st, ctx: VExt("MemberGen"),
         note="members: non-directory, not skipped, <= max_memory_size; order = zf.infolist(); bytes = zf.read(info)"))
 
     # ---- TAR
     def tar_tf(lc):
-        vals = [v for v in lc.st.frame.env.values() if isinstance(v, VExt) and v.sort == "TarFile"]
-        if len(vals) != 1:
-            raise ops.Unsupported("tar loop: expected one TarFile local")
-        return vals[0].t
+        tag = getattr(lc.seq, "tag", None)
+        if isinstance(tag, tuple) and len(tag) == 2 and tag[0] == "tarmembers":
+            return tag[1]
+        raise ops.Unsupported("tar loop: the iterated sequence does not come from a TarFile")
 
     def tar_inv(lc):
         tf = tar_tf(lc)
         conj = []
         if lc.extra.get("phase") == "preserve":
             m = TMEM(tf, lc.i - 1)
-            ap = lc.entry.lookup("archive_path")
+            ap = top(lc, "archive_path")
             keep = z3.And(TISREG(m), z3.Not(SKIP(TNAME(m), BASENAME(TNAME(m)))), z3.Not(TSIZE(m) > MAXMEM), THASFILE(tf, m))
             ys = new_events(lc, "yields")
             failed = lc.st.ghost.get("raised", 0) > lc.entry.ghost.get("raised", 0)
@@ -1483,7 +1840,7 @@ def member_contracts():
         raises=[Raises("Exception", sub=True, label="the container could not be opened / listed",
                        when=lambda c: z3.BoolVal(c.exc is not None and c.exc.attrs.get("site") in ("tarfile.open()", "TarFile.getmembers()"))),
                 Raises("ExtractionFailedError", label="TarError")],
-        loops={0: LoopSpec(inv=done("each-visible-supported-regular-member-dispatched-in-getmembers-order", tar_inv), label="each-visible-supported-regular-member-dispatched-in-getmembers-order")},
+        loops=role(is_seq("TarInfo"), "each-visible-supported-regular-member-dispatched-in-getmembers-order", tar_inv),
         frame=lambda ex, st, ctx: st.ghost.__setitem__("routes", events(st, "routes") + (("tar", ctx.args["file_like"], ctx.args["archive_path"], ctx.args.get("mode")),)),
         result_maker=lambda ex, st, ctx: VExt("MemberGen"),
         note="members: regular, not skipped, <= max_memory_size; order = tf.getmembers(); bytes = tf.extractfile(m).read(); "
@@ -1496,8 +1853,8 @@ def member_contracts():
         conj = []
         if lc.extra.get("phase") == "preserve":
             j = lc.i - 1
-            temp = lc.entry.lookup("temp_dir").t
-            ap = lc.entry.lookup("archive_path")
+            temp = top(lc, "temp_dir").t
+            ap = top(lc, "archive_path")
             pth = SJ(temp, WFN(j))
             ys = new_events(lc, "yields")
             failed = lc.st.ghost.get("raised", 0) > lc.entry.ghost.get("raised", 0)
@@ -1518,7 +1875,7 @@ def member_contracts():
         params=[("files_to_process", wl_maker), ("temp_dir", p_str()), ("archive_path", p_opt(p_str()))],
         generator=True, raises=[],
         ensures=[completes("each-work-item-dispatched-with-the-bytes-extracted-under-its-own-name")],
-        loops={0: LoopSpec(inv=done("each-work-item-dispatched-with-the-bytes-extracted-under-its-own-name", seq7_inv), label="each-work-item-dispatched-with-the-bytes-extracted-under-its-own-name")},
+        loops=role(is_seq("tuple"), "each-work-item-dispatched-with-the-bytes-extracted-under-its-own-name", seq7_inv),
         result_maker=seq7_result,
         note="work item (info, name, base) -> entry(name, content of safe_join(temp_dir, name), archive_path, base); "
              "a missing / unreadable file affects only itself"))
@@ -1528,8 +1885,7 @@ def member_contracts():
     def sel7_inv(lc):
         i = lc.i
         conj = []
-        fnode = lc.ex.cur_fn_stack[-1]
-        wl = worklist_name(fnode, 0)
+        wl = worklist_of(cur_loop(lc))
         ref = lc.entry.lookup(wl).ref
         if lc.extra.get("phase") == "preserve":
             e = FINFO(i - 1)
@@ -1573,7 +1929,7 @@ def member_contracts():
         raises=[Raises("ExtractionError", sub=True, label="too large / encrypted / extraction failed / invalid archive"),
                 Raises("Exception", sub=True, label="container / temp dir could not be opened",
                        when=lambda c: z3.BoolVal(c.exc is not None and "site" in c.exc.attrs))],
-        loops={0: LoopSpec(inv=done("selects-the-visible-supported-members-in-list-order", sel7_inv), label="selects-the-visible-supported-members-in-list-order")},
+        loops=role(is_seq("FileInfo"), "selects-the-visible-supported-members-in-list-order", sel7_inv),
         frame=lambda ex, st, ctx: st.ghost.__setitem__("routes", events(st, "routes") + (("7z", ctx.args["file_like"], ctx.args["archive_path"], None),)),
         result_maker=lambda ex, st, ctx: VExt("MemberGen"),
         note="members: non-directory, not skipped, <= max_memory_size; order = szf.list()"))
@@ -1690,14 +2046,14 @@ def build_contracts(reg):
             z3.ForAll([t], z3.Implies(z3.And(t >= 0, t < MF), NSK(t) >= 1), patterns=[FOLD(t)]),
             RANK(NFL) <= NFS)
 
-    def files_ref(st):
-        return st.obj(st.lookup("self").ref).data["_files"]
+    def files_ref(lc):
+        return lc.entry.obj(top(lc, "self").ref).data["_files"]
 
     def size_index_local(lc):
-        v = lc.st.lookup("size_index")
-        if not isinstance(v, VInt):
-            raise ops.Unsupported("_build_file_list: running sub-stream index not found")
-        return ops.int_term(v)
+        ints = loop_carried_ints(lc)
+        if len(ints) != 1:
+            raise ops.Unsupported(f"_build_file_list: expected one running sub-stream index, found {sorted(ints)}")
+        return ops.int_term(next(iter(ints.values())))
 
     cap = {}
 
@@ -1708,7 +2064,7 @@ def build_contracts(reg):
             lc.st.assume(rank_mono_at(i + 1, NFL))      # lemma rank-monotone (induction, lemmas()), instantiated at this index
         if lc.extra.get("phase") == "preserve":
             j = i - 1
-            fr = files_ref(lc.entry)
+            fr = files_ref(lc)
             new = [v for (r, v) in new_events(lc, "appends") if isinstance(fr, VRef) and r == fr.ref]
             ok = z3.BoolVal(False)
             if len(new) == 1 and isinstance(new[0], VRef) and lc.st.obj(new[0].ref).cls == "FileInfo":
@@ -1724,7 +2080,7 @@ def build_contracts(reg):
                                  note="FileInfo.is_directory must be emptyStream AND NOT emptyFile (7zFormat.txt, FilesInfo)", loc="")
                     if ZLB:
                         # the worklist of zero-length files (what extractall creates): file j is put on it iff emptyStream AND emptyFile
-                        zr = lc.entry.obj(lc.entry.lookup("self").ref).data[ZLB]
+                        zr = lc.entry.obj(top(lc, "self").ref).data[ZLB]
                         zl = [v for (r, v) in new_events(lc, "appends") if isinstance(zr, VRef) and r == zr.ref]
                         zok = z3.BoolVal(False)
                         if len(zl) == 0:
@@ -1747,14 +2103,18 @@ def build_contracts(reg):
             if any(not f.eq(forms[0]) for f in forms):
                 raise ops.Unsupported("is_directory computed differently on different paths")
             v = VSeq(NFL, lambda j: VHandle("BuiltFile", j, {"is_directory": VBool(subst_index(t, i_c, j))}), "BuiltFile")
-            lc.st.wobj(lc.st.lookup("self").ref).data["_files"] = v
+            lc.st.wobj(top(lc, "self").ref).data["_files"] = v
         return z3.And(conj)
 
     def map_inv(lc):
         i = lc.i
-        fidx, fif = lc.st.lookup("folder_idx"), lc.st.lookup("file_in_folder")
-        if not (isinstance(fidx, VInt) and isinstance(fif, VInt)):
-            raise ops.Unsupported("_build_file_list: folder cursor locals not found")
+        ints = loop_carried_ints(lc)
+        zeroed = {t.id for n in ast.walk(cur_loop(lc)) if isinstance(n, ast.Assign) and isinstance(n.value, ast.Constant) and n.value.value == 0
+                  for t in n.targets if isinstance(t, ast.Name)} & set(ints)
+        if len(ints) != 2 or len(zeroed) != 1:
+            raise ops.Unsupported(f"_build_file_list: folder cursor not recognised (loop-carried ints {sorted(ints)}, reset to 0: {sorted(zeroed)})")
+        fif = ints[next(iter(zeroed))]                      # position inside the current folder: the one reset to 0
+        fidx = next(v for k, v in ints.items() if k not in zeroed)
         k, j = ops.int_term(fidx), ops.int_term(fif)
         r = RANK(i)
         conj = [0 <= k, k <= MF,
@@ -1783,10 +2143,8 @@ def build_contracts(reg):
         requires=b_requires, raises=[], modifies=("self",),
         ensures=[completes("file-i-gets-its-name-attributes-and-the-size-of-its-sub-stream",
                            "file-with-r-th-stream-goes-to-the-folder-k-with-cum(k)<=r<cum(k+1)")],
-        loops={0: LoopSpec(inv=done("file-i-gets-its-name-attributes-and-the-size-of-its-sub-stream", files_inv),
-                           label="file-i-gets-its-name-attributes-and-the-size-of-its-sub-stream"),
-               1: LoopSpec(inv=done("file-with-r-th-stream-goes-to-the-folder-k-with-cum(k)<=r<cum(k+1)", map_inv),
-                           label="file-with-r-th-stream-goes-to-the-folder-k-with-cum(k)<=r<cum(k+1)")},
+        loops=merged(role(both(is_seq("int"), body_calls("FileInfo")), "file-i-gets-its-name-attributes-and-the-size-of-its-sub-stream", files_inv),
+                   role(both(is_seq("tuple", "BuiltFile", "int"), lambda ex, st, it, node: not body_calls("FileInfo")(ex, st, it, node)), "file-with-r-th-stream-goes-to-the-folder-k-with-cum(k)<=r<cum(k+1)", map_inv)),
         note="files without a stream are skipped, in header order; the r-th stream-bearing file is sub-stream j = r - cum(k) of the "
              "unique folder k with cum(k) <= r < cum(k) + num_streams(k); position j in _folder_to_files[k] follows from append order"))
     return out
@@ -1876,14 +2234,14 @@ def parser_contracts():
     SZ_LABEL = "size-j-is-the-j-th-NUMBER-after-the-0x09-marker"
     CRC_LABEL = "one-uint32-skipped-per-defined-digest"
 
-    def stream_v(st):
-        return st.obj(st.lookup("self").ref).data["_stream"]
+    def stream_v(lc):
+        return lc.entry.obj(top(lc, "self").ref).data["_stream"]
 
     def havoc_stream(ex, st):
-        common.havoc_pos(ex, st, stream_v(st))
+        common.havoc_pos(ex, st, st.obj(top(ex, "self").ref).data["_stream"])
 
     def sz_inv(lc):
-        stream = stream_v(lc.entry)
+        stream = stream_v(lc)
         s_, q0 = stream.t, common.bytesio_pos(lc.entry, stream)
         i = lc.i
         N = lc.seq.length
@@ -1898,12 +2256,12 @@ def parser_contracts():
         return z3.And(conj)
 
     def sz_result(lc):
-        stream = stream_v(lc.entry)
+        stream = stream_v(lc)
         s_, q0 = stream.t, common.bytesio_pos(lc.entry, stream)
         return VSeq(lc.i, lambda j: VInt(NUMV(s_, NUMPOS(s_, q0, j))), "int", tag=("numbers", s_, q0))
 
     def crc_inv(lc):
-        stream = stream_v(lc.entry)
+        stream = stream_v(lc)
         s_, c0 = stream.t, common.bytesio_pos(lc.entry, stream)
         tag = getattr(lc.seq, "tag", None)
         if not (isinstance(tag, tuple) and tag and tag[0] == "bitvector"):
@@ -1976,8 +2334,8 @@ def parser_contracts():
         requires=req_stream, hyps=pk_hyps, modifies=("self",),
         ensures=[("result-fields-and-position-equal-the-PackInfo-grammar", pk_post)],
         raises=[Raises(BAD, when=pk_raise, label="bad end marker / short stream")],
-        loops={("comp", 0): CompSpec(inv=sz_inv, result=sz_result, havoc=(havoc_stream,), label=SZ_LABEL),
-               0: LoopSpec(inv=crc_inv, havoc=(havoc_stream,), label=CRC_LABEL)},
+        loops=merged({("comp", "*"): CompSpec(inv=sz_inv, result=sz_result, havoc=(havoc_stream,), label=SZ_LABEL)},
+                     role(is_seq(tag="bitvector"), CRC_LABEL, crc_inv, havoc=(havoc_stream,))),
         note="PackInfo grammar of 7zFormat.txt for any numPackStreams; pack position made absolute by the 32-byte signature header"))
 
     # ---- _parse_substreams_info (BOUNDED shapes)
@@ -2436,11 +2794,50 @@ def table_check(repo, tier):
     bad = [e for e in tab if not (len(e) == 3 and published.get(e[0]) == e[1] and e[2] == len(e[0]))]
     need = {"zip", "7z", "tar.gz", "tar.bz2", "tar.xz"} - {e[1] for e in tab}
     obls = [ground_obligation("C10/archive_extractor.py::MAGIC_SIGNATURES/module-invariant#entries-are-published-magic-numbers-of-their-format",
-                              not bad and not need and b"PK\x03\x04" in [e[0] for e in tab], f"bad entries {bad[:3]}, missing {sorted(need)}", ARCH,
+                              not bad and not need and b"PK\x03\x04" in [e[0] for e in tab], f"bad entries {bad[:3]}, missing {sorted(need)}", ARCH, definite=False,
                               kind="module-invariant", backend="ground"),
             ground_obligation("C10/archive_extractor.py::TAR_MAGIC/module-invariant#ustar-at-257", tar_off == 257 and tar_magic == b"ustar",
-                              f"{tar_off} {tar_magic!r}", ARCH, kind="module-invariant", backend="ground")]
+                              f"{tar_off} {tar_magic!r}", ARCH, kind="module-invariant", backend="ground", definite=False)]
     return {"obligations": obls}
+
+
+_SHAPE_ERRORS = (AttributeError, KeyError, TypeError, IndexError, ValueError, AssertionError, z3.Z3Exception)
+
+
+def guarded(fn, what):
+    """a contract clause is pack code evaluated on values produced from the (possibly changed) source: a Python exception in it
+    means "this shape is not recognised" -> Unsupported (the function is reported OUT-OF-SUBSET / unknown, the native replayer decides)"""
+    if fn is None:
+        return None
+
+    def g(*a, **k):
+        try:
+            return fn(*a, **k)
+        except _SHAPE_ERRORS as e:
+            raise ops.Unsupported(f"{what}: shape not recognised ({type(e).__name__}: {str(e)[:120]})")
+    return g
+
+
+def guard_contract(c):
+    orig_hyps = c.hyps
+
+    def hyps(cx):
+        if not cx.at_call_site:            # the function under contract itself: remember its argument values for loop invariants
+            cx.ex.top_args = dict(cx.args)
+        return orig_hyps(cx) if orig_hyps is not None else z3.BoolVal(True)
+    c.hyps = hyps
+    for attr in ("requires", "hyps", "returns", "result_maker", "frame", "yields"):
+        setattr(c, attr, guarded(getattr(c, attr, None), f"{c.target.split('::')[-1]}.{attr}"))
+    c.ensures = [(lab, guarded(fn, f"ensures#{lab}")) for (lab, fn) in c.ensures]
+    c.final = {k: guarded(fn, f"final#{k}") for k, fn in c.final.items()}
+    for r in c.raises:
+        r.when = guarded(r.when, "raises.when")
+    for key, sp in list(c.loops.items()):
+        sp.inv = guarded(sp.inv, f"loop invariant {sp.label}")
+        if getattr(sp, "result", None) is not None:
+            sp.result = guarded(sp.result, f"comprehension result {sp.label}")
+        sp.havoc = tuple(guarded(h, f"loop havoc {sp.label}") if callable(h) else h for h in sp.havoc)
+    return c
 
 
 def contracts(reg):
@@ -2454,7 +2851,42 @@ def contracts(reg):
     out.extend(build_contracts(reg))
     out.extend(member_contracts())
     out.extend(detect_contracts())
-    return out
+    return [guard_contract(c) for c in out]
+
+
+def _missing_locked_as_unknown(c, rep):
+    """an obligation recorded in the lock that the (changed) function no longer generates -- a loop whose role was not
+    recognised, a clause attached to a statement that disappeared -- is neither proved nor refuted: `unknown`"""
+    import json
+    import os
+    if rep.error or rep.out_of_subset or getattr(c, "bounded", ""):
+        return
+    try:
+        lock = json.load(open(os.path.join(os.path.dirname(os.path.dirname(os.path.abspath(__file__))), "obligations.lock.json"))).get("C10", {})
+    except (OSError, ValueError):
+        return
+    rel, qual = c.target.split("::")
+    prefix = f"C10/{rel.split('/')[-1]}::{qual}/"
+    have = {o["id"] for o in rep.obligations}
+    for oid in sorted(lock):
+        if oid.startswith(prefix) and oid not in have and "/call-pre#" not in oid and not oid.endswith(".BOUNDED"):
+            rep.obligations.append({"id": oid, "kind": oid[len(prefix):].split("#")[0], "status": "unknown", "vcs": 0, "seconds": 0.0, "backends": {},
+                                    "witness": None, "reason": "locked obligation not generated from the changed code (loop role / statement not recognised)", "loc": ""})
+
+
+def post_report(c, rep):
+    """Round-3 policy: a refutation at the SMT level is NOT reported as a violation by itself.  Invariant-preservation VCs start from
+    a havocked state, clauses return False for shapes they do not recognise, loop cuts / EXC-ANY over-approximate: none of these is a
+    definite counterexample.  Every refuted obligation is handed to the native replayer as `unknown` (pyvc/check.py REPLAY_UNKNOWN):
+    it becomes a VIOLATION exactly when replay/C10.py reproduces a failing input on the real code, otherwise it is UNDECIDED."""
+    _missing_locked_as_unknown(c, rep)
+    for o in rep.obligations:
+        if o.get("status") == "refuted":
+            o["status"] = "unknown"
+            o["reason"] = ("counter-model at the SMT level, not a definite counterexample by itself (" + (o.get("reason") or "no note") + ")")[:400]
+
+
+REPLAY_UNKNOWN = True
 
 
 def lemmas():
@@ -2480,8 +2912,8 @@ def lemmas():
     out.append(("C10/spec::7z-header/lemma#digests-defined-monotone.base", [dcnt_def(sl, pl, adl, b)], dcnt_mono_at(sl, pl, adl, a, z3.IntVal(0))))
     out.append(("C10/spec::7z-header/lemma#digests-defined-monotone.step", [b >= 0, dcnt_def(sl, pl, adl, b), dcnt_mono_at(sl, pl, adl, a, b), dcnt_mono_at(sl, pl, adl, b, b)],
                 dcnt_mono_at(sl, pl, adl, a, b + 1)))
-    out.append(("C10/spec::7z-layout/lemma#pack-prefix-sum-nonneg.base", [], PS(z3.IntVal(0)) >= 0))
-    out.append(("C10/spec::7z-layout/lemma#pack-prefix-sum-nonneg.step", [b >= 0, PS(b) >= 0, PSZ(b) > 0], PS(b + 1) >= 0))
+    out.append(("C10/spec::7z-layout/lemma#pack-prefix-sum-nonneg.base", [ps_def(b)], PS(z3.IntVal(0)) >= 0))
+    out.append(("C10/spec::7z-layout/lemma#pack-prefix-sum-nonneg.step", [b >= 0, ps_def(b), PS(b) >= 0, PSZ(b) > 0], PS(b + 1) >= 0))
     return out
 
 
